@@ -2048,6 +2048,34 @@ def normalise_program(prog, *, inline: bool = True,
             report["new_functions"] or has_local) else None
         if new is not None:
             node = new
+        # Class.__slots__ is a literal of the class statement
+        if any(isinstance(x, ast.Attribute) and x.attr == "__slots__"
+               and isinstance(x.value, ast.Name)
+               and x.value.id in prog.classes for x in ast.walk(node)):
+            class _Slots(ast.NodeTransformer):
+                hit = False
+
+                def visit_Attribute(self, n):
+                    if n.attr == "__slots__" and isinstance(
+                            n.value, ast.Name) and \
+                            n.value.id in prog.classes and isinstance(
+                            n.ctx, ast.Load):
+                        lit = prog.classes[n.value.id].assigns.get("__slots__")
+                        if isinstance(lit, (ast.Tuple, ast.List)) and all(
+                                isinstance(e, ast.Constant)
+                                for e in lit.elts):
+                            self.hit = True
+                            return ast.copy_location(ast.Tuple(
+                                [clone(e) for e in lit.elts], ast.Load()), n)
+                    self.generic_visit(n)
+                    return n
+            t_ = _Slots()
+            new_node = t_.visit(clone(node))
+            if t_.hit:
+                ast.fix_missing_locations(new_node)
+                set_parents(new_node)
+                node = new_node
+                touched.add(q)
         if unroll_loops:
             u, ch = unroll(node)
             if ch:
